@@ -4,7 +4,7 @@
     The model of smt/serialize.rs is [SmtSer.ser] / [ser_cmd] / [ser_type] / [escape_id]; the
     SMT-LIB side ([scheck], [seval], [cmd_check], [symbol_name], ...) is the reference front
     end of [Spec/Smt.v], written from the standard.  [ebv]/[earr] is the semantics of the IR. *)
-From Patronus Require Import SmtSer SmtSerLemmas SmtSemLemmas SmtSerProofs SmtCmdProofs.
+From Patronus Require Import SmtSer SmtSerLemmas SmtSemLemmas SmtSerProofs SmtCmdProofs SmtSpecProofs.
 Open Scope string_scope.
 Open Scope N_scope.
 
@@ -88,6 +88,14 @@ Print Assumptions C05_cmd_head_outside_known.
 Theorem C05_read_flatten : forall t : sx, read_one (flatten t) = Some t.
 Proof. exact read_one_flatten. Qed.
 Print Assumptions C05_read_flatten.
+
+(** The reference front end itself is coherent: a term that evaluates (under a model whose values
+    have the declared sorts) is accepted by the strict sort checker at the sort of its value. *)
+Theorem C05_reference_coherent :
+  forall (t : sx) (G : sctx) (M : smodel) (v : sval),
+    model_sorted G M -> seval M t = Some v -> scheck G t = Some (sort_of_val v).
+Proof. exact seval_scheck. Qed.
+Print Assumptions C05_reference_coherent.
 
 (** [built] cannot be dropped: for a 1-bit source, a no-op slice (not constructible through
     [Context::slice]) would be written ill-sorted even if the stray parenthesis were absent. *)
